@@ -1,5 +1,5 @@
 ---------------------------- MODULE ImplJacobian ----------------------------
-(* Level B: transcription of src/groups.rs (eq 175-201, to_affine 204-223,     *)
+(* Level B: the transcription of src/groups.rs in JacAlgo.tla (eq 175-201, to_affine 204-223,     *)
 (* double 263-279, mul 281-296, add 307-387, neg 403-417) over a tiny prime     *)
 (* field, checked against the affine chord-and-tangent law for EVERY Jacobian   *)
 (* representative of every point of a prime-order curve y^2 = x^3 + B.          *)
@@ -20,54 +20,16 @@ FInv(a) == PowN(a, P - 2)
 Aff == INSTANCE Curve WITH FAdd <- FAdd, FSub <- FSub, FMul <- FMul, FInv <- FInv, FZero <- 0, B <- B
 AffPoints == { <<x, y>> \in Fp \X Fp : FSqr(y) = FAdd(FMul(FSqr(x), x), B) }
 \* ------------------------------------------------------------------ the code
-IsZero(g) == g[3] = 0
-Zero == <<0, 1, 0>>
-Double(g) ==
-    LET a == FSqr(g[1])  b == FSqr(g[2])  c == FSqr(b)
-        d == FDbl(FSub(FSub(FSqr(FAdd(g[1], b)), a), c))
-        e == FTpl(a)  f == FSqr(e)
-        x3 == FSub(f, FDbl(d))
-        eightc == FDbl(FDbl(FDbl(c)))
-    IN << x3, FSub(FMul(e, FSub(d, x3)), eightc), FDbl(FMul(g[2], g[3])) >>
-RECURSIVE AddJ(_, _)
-AddJ(s, o) ==
-    IF IsZero(s) THEN o ELSE IF IsZero(o) THEN s
-    ELSE IF s[3] = 1 /\ o[3] = 1 THEN
-        LET h == FSub(o[1], s[1])  r == FSub(o[2], s[2])
-        IN IF r = 0 /\ h = 0 THEN Double(s)
-           ELSE LET hh == FSqr(h)  hhh == FMul(h, hh)  v == FMul(s[1], hh)
-                    x == FSub(FSub(FSqr(r), hhh), FDbl(v))
-                IN << x, FSub(FMul(r, FSub(v, x)), FMul(s[2], hhh)), h >>
-    ELSE IF s[3] # 1 /\ o[3] = 1 THEN
-        LET z1s == FSqr(s[3])  u2 == FMul(o[1], z1s)  z1c == FMul(s[3], z1s)  s2 == FMul(o[2], z1c)
-            h == FSub(u2, s[1])  r == FSub(s2, s[2])
-        IN IF r = 0 /\ h = 0 THEN Double(s)
-           ELSE LET hh == FSqr(h)  hhh == FMul(h, hh)  v == FMul(s[1], hh)
-                    x == FSub(FSub(FSqr(r), hhh), FDbl(v))
-                IN << x, FSub(FMul(r, FSub(v, x)), FMul(s[2], hhh)), FMul(s[3], h) >>
-    ELSE IF s[3] = 1 /\ o[3] # 1 THEN AddJ(o, s)
-    ELSE
-        LET z1s == FSqr(s[3])  z2s == FSqr(o[3])
-            u1 == FMul(s[1], z2s)  u2 == FMul(o[1], z1s)
-            z1c == FMul(s[3], z1s)  z2c == FMul(o[3], z2s)
-            s1 == FMul(s[2], z2c)  s2 == FMul(o[2], z1c)
-            r == FSub(s2, s1)  h == FSub(u2, u1)  t6 == FAdd(s1, s2)
-        IN IF r = 0 /\ h = 0 THEN Double(s)
-           ELSE IF r = 0 /\ t6 = 0 THEN Zero
-           ELSE LET hh == FSqr(h)  hhh == FMul(h, hh)  v == FMul(u1, hh)
-                    x == FSub(FSub(FSqr(r), hhh), FDbl(v))
-                IN << x, FSub(FMul(r, FSub(v, x)), FMul(s1, hhh)), FMul(FMul(s[3], o[3]), h) >>
-NegJ(g) == IF IsZero(g) THEN g ELSE << g[1], FNeg(g[2]), g[3] >>
-SubJ(s, o) == AddJ(s, NegJ(o))
-EqJ(s, o) ==
-    IF IsZero(s) THEN IsZero(o) ELSE IF IsZero(o) THEN FALSE
-    ELSE LET z1s == FSqr(s[3])  z2s == FSqr(o[3])
-         IN IF FMul(s[1], z2s) # FMul(o[1], z1s) THEN FALSE
-            ELSE FMul(s[2], FMul(o[3], z2s)) = FMul(o[2], FMul(s[3], z1s))
-ToAffine(g) == IF g[3] = 0 THEN Aff!Inf
-               ELSE IF g[3] = 1 THEN << g[1], g[2] >>
-               ELSE LET zi == FInv(g[3])  zi2 == FSqr(zi) IN << FMul(g[1], zi2), FMul(g[2], FMul(zi2, zi)) >>
-MulJ(g, bits) == FoldLeft(LAMBDA res, bit : IF bit = 1 THEN AddJ(Double(res), g) ELSE Double(res), Zero, bits)
+J == INSTANCE JacAlgo WITH FAdd <- FAdd, FSub <- FSub, FMul <- FMul, FInv <- FInv, FZero <- 0, FOne <- 1
+IsZero(g) == J!IsZero(g)
+Zero == J!Zero
+Double(g) == J!Double(g)
+AddJ(s, o) == J!AddJ(s, o)
+NegJ(g) == J!NegJ(g)
+SubJ(s, o) == J!SubJ(s, o)
+EqJ(s, o) == J!EqJ(s, o)
+ToAffine(g) == J!ToAffine(g)
+MulJ(g, bits) == J!MulJ(g, bits)
 \* ------------------------------------------------------------------ abstraction and state space
 Abs(g) == IF g[3] = 0 THEN Aff!Inf
           ELSE LET zi == FInv(g[3]) zi2 == FSqr(zi) IN << FMul(g[1], zi2), FMul(g[2], FMul(zi2, zi)) >>
